@@ -34,7 +34,10 @@ RULE = ("static: one obligation per estimator class (frame analysis) and per pub
         "shape, weight or name count, both or neither of shape and spacing, inverted or wrong-length region, 3 spacing values) and the "
         "valid controls (incl. raveled 1-D weights for 2-D data), 1-D and 2-D shapes; dynamic: every estimator class x 1..4 fits on data sets of different sizes compared with a "
         "fresh estimator, refits on a data set with the SAME size and bounding box as the previous one (permuted order / same extreme points, "
-        "other interior), compared bit for bit, clone / get_params / set_params round trips, predict-like calls on unfitted instances, every public function "
+        "other interior), compared bit for bit, get_params(deep=True) compared by value before/after every fit / predict / grid / scatter / "
+        "profile / score / filter (tiny and normal data sets), refits whose first data set is tiny (3-4 points: fewer than k, forces, "
+        "polynomial terms), clone of a fitted estimator vs fresh, Vector / Chain / SplineCV called before fit with fresh and with "
+        "individually pre-fitted components, clone / get_params / set_params round trips, predict-like calls on unfitted instances, every public function "
         "and estimator method with argument bytes hashed before/after (writable and read-only arrays) and called twice. "
         "Non-trivial = the call is expected to succeed or is a single-fault rejection; distinct = distinct (entry, arguments).")
 ASSUMPTIONS = [
@@ -819,6 +822,184 @@ def _history_same_bbox(vd, rnd, tier):
     return cases
 
 
+def _psnap(v, depth=0):
+    """value snapshot of a constructor parameter (arrays bit for bit)"""
+    if depth > 6:
+        return "deep"
+    if isinstance(v, np.ndarray):
+        return ("nd", str(v.dtype), v.shape, hashlib.sha1(np.ascontiguousarray(v).tobytes()).hexdigest())
+    if isinstance(v, (list, tuple)):
+        return (type(v).__name__,) + tuple(_psnap(x, depth + 1) for x in v)
+    if isinstance(v, dict):
+        return ("dict",) + tuple((str(k), _psnap(x, depth + 1)) for k, x in sorted(v.items(), key=lambda kv: str(kv[0])))
+    if hasattr(v, "get_params"):
+        return ("est", type(v).__name__, id(v))
+    if callable(v):
+        return ("callable", getattr(v, "__module__", ""), getattr(v, "__qualname__", repr(v)))
+    return ("val", type(v).__name__, repr(v))
+
+
+def _noid(v):
+    """drop object identities (for comparing two different but equal estimators)"""
+    if isinstance(v, tuple):
+        if len(v) == 3 and v[0] == "est":
+            return v[:2]
+        return tuple(_noid(x) for x in v)
+    return v
+
+
+def _params(est):
+    return {k: _psnap(v) for k, v in est.get_params(deep=True).items()}
+
+
+def _params_diff(before, after, allow=()):
+    keys = sorted(set(before) | set(after))
+    return [k for k in keys if k not in allow and before.get(k) != after.get(k)]
+
+
+def _history_params(vd, rnd, tier):
+    """(a) no call writes a constructor parameter: get_params(deep=True) before == after every fit / predict / grid / scatter /
+    profile / score / filter;  (b) refits whose FIRST data set is tiny (fewer points than k / forces / polynomial terms);
+    (c) clone of a fitted estimator == fresh estimator;  (d) composite estimators and SplineCV must raise before fit, with fresh
+    and with individually pre-fitted components."""
+    from sklearn.base import clone
+    cases = []
+    ests = dict(_estimators(vd))
+    ests["KNeighbors(k=5)"] = (lambda: vd.KNeighbors(k=5), False)
+    ests["Trend(3)"] = (lambda: vd.Trend(3), False)
+    src = dict(_MK_SRC)
+    src["KNeighbors(k=5)"] = "vd.KNeighbors(k=5)"
+    src["Trend(3)"] = "vd.Trend(3)"
+    reps = 1 if tier == "quick" else 4
+    probe = (np.array([0.5, 2.25, 4.0, 5.75, 7.5, 9.25]), np.array([-4.5, -2.0, 0.25, 1.5, 3.0, 4.5]))
+    region = (0.0, 10.0, -5.0, 5.0)
+
+    def lit(a):
+        return "np.array(%r)" % (np.asarray(a).tolist(),)
+
+    def args_src(ds, vector, weighted=False):
+        if vector:
+            return "(%s, %s), (%s, 2.0 - %s), None" % (lit(ds[0]), lit(ds[1]), lit(ds[2]), lit(ds[2]))
+        return "(%s, %s), %s, None" % (lit(ds[0]), lit(ds[1]), lit(ds[2]))
+
+    def boolcase(inp, out, holds, repro, kind, nontrivial=True):
+        cases.append(Case(inp, out, "mk_verdict true %s" % cbool(holds), repro, kind, nontrivial=nontrivial))
+
+    with warnings.catch_warnings():
+        warnings.simplefilter("ignore")
+        for name, (mk, vector) in ests.items():
+            allow = ("force_coords",) if name == "VectorSpline2D" else ()      # documented write-once parameter
+            for rep in range(reps):
+                # ---- (a) parameters unchanged by every call, tiny and normal data sets
+                for size in ("tiny", "normal"):
+                    n = rnd.choice([3, 4]) if size == "tiny" else rnd.choice([14, 18])
+                    ds = _lattice_dataset(rnd, n)
+                    est = mk()
+                    before = _params(est)
+                    calls = [("fit", lambda: est.fit(*_fitargs(ds, vector, False)))]
+                    if size == "normal":
+                        calls += [("predict", lambda: est.predict(probe)),
+                                  ("grid", lambda: est.grid(region=region, shape=(3, 4))),
+                                  ("scatter", lambda: est.scatter(region=region, size=5, random_state=0)),
+                                  ("profile", lambda: est.profile((1.0, -3.0), (8.0, 3.0), size=5)),
+                                  ("score", lambda: est.score(*_fitargs(ds, vector, False))),
+                                  ("filter", lambda: est.filter(*_fitargs(ds, vector, False)))]
+                    for cname, fn in calls:
+                        try:
+                            fn()
+                            err = None
+                        except Exception as exc:      # noqa
+                            err = "%s: %s" % (type(exc).__name__, str(exc)[:100])
+                        if err is not None and cname == "fit":
+                            break                       # this estimator does not accept so few points: not applicable
+                        after = _params(est)
+                        changed = _params_diff(before, after, allow)
+                        raw = est.get_params(deep=True)
+                        boolcase({"estimator": name, "call": cname, "data_set": size, "n_points": n,
+                                  "easting": ds[0].tolist(), "northing": ds[1].tolist(), "data": ds[2].tolist()},
+                                 {"changed_parameters": {k: repr(raw.get(k))[:80] for k in changed}, "error": err}, not changed,
+                                 "import warnings; warnings.simplefilter('ignore'); import numpy as np, verde as vd; est = %s; p0 = {k: repr(v) for k, v in est.get_params().items()}; "
+                                 "est.fit(%s); p1 = {k: repr(v) for k, v in est.get_params().items()}; print({k: (p0[k], p1[k]) for k in p0 if p0[k] != p1[k]})  # call under test: %s"
+                                 % (src[name].replace(", force_coords=FC", ""), args_src(ds, vector), cname), "params-unchanged")
+                        if name == "VectorSpline2D":
+                            before = after if cname == "fit" else before      # after the first fit force_coords must stay put as well
+                            allow = () if cname == "fit" else allow
+                    allow = ("force_coords",) if name == "VectorSpline2D" else ()
+                # ---- (b) tiny first data set, then a normal one, vs fresh;  (c) clone of the fitted estimator vs fresh
+                tiny = _lattice_dataset(rnd, rnd.choice([3, 4]))
+                big = _lattice_dataset(rnd, rnd.choice([14, 18]))
+                est = mk()
+                try:
+                    est.fit(*_fitargs(tiny, vector, False))
+                    applicable = True
+                except Exception:      # noqa
+                    applicable = False
+                if applicable:
+                    if name == "VectorSpline2D":
+                        fc = tuple(np.ravel(x).copy() for x in tiny[:2])
+                        mkfresh = lambda: vd.VectorSpline2D(poisson=0.4, mindist=2.0, damping=1e-3, force_coords=fc)
+                    else:
+                        mkfresh = mk
+                    fresh_src = src[name].replace("FC", "(%s, %s)" % (lit(tiny[0]), lit(tiny[1])))
+                    for kind, build in (("refit-tiny-first", lambda: est), ("clone-after-fit", lambda: clone(est))):
+                        try:
+                            obj = build()
+                            same_params = _params_diff({k: _noid(v) for k, v in _params(obj).items()},
+                                                       {k: _noid(v) for k, v in _params(mkfresh()).items()}) == [] \
+                                if kind == "clone-after-fit" else True
+                            obj.fit(*_fitargs(big, vector, False))
+                            fresh = mkfresh().fit(*_fitargs(big, vector, False))
+                            same = _identical(obj.predict(probe), fresh.predict(probe)) and _identical(obj.predict((big[0], big[1])), fresh.predict((big[0], big[1])))
+                            out = {"identical_to_fresh": same, "same_parameters_as_fresh": same_params}
+                            holds = same and same_params
+                        except Exception as exc:      # noqa
+                            holds, out = False, {"error": "%s: %s" % (type(exc).__name__, str(exc)[:160])}
+                        repro = ("import warnings; warnings.simplefilter('ignore'); import numpy as np, verde as vd; from sklearn.base import clone; "
+                                 "est = %s; est.fit(%s); " % (src[name].replace(", force_coords=FC", ""), args_src(tiny, vector))
+                                 + ("est = clone(est); " if kind == "clone-after-fit" else "")
+                                 + "print(est.get_params()); est.fit(%s); fresh = %s; fresh.fit(%s); " % (args_src(big, vector), fresh_src, args_src(big, vector))
+                                 + "p = (%s, %s); a, b = est.predict(p), fresh.predict(p); print(a); print(b); print('identical:', np.array_equal(np.asarray(a), np.asarray(b), equal_nan=True))"
+                                 % (lit(big[0]), lit(big[1])))
+                        boolcase({"estimator": name, "first_data_set": {"easting": tiny[0].tolist(), "northing": tiny[1].tolist(), "data": tiny[2].tolist()},
+                                  "second_data_set": {"easting": big[0].tolist(), "northing": big[1].tolist(), "data": big[2].tolist()}}, out, holds, repro, kind)
+        # ---- (d) composite estimators / SplineCV before fit: fresh and individually pre-fitted components
+        ds = _lattice_dataset(rnd, 16)
+        c, d = (ds[0], ds[1]), ds[2]
+
+        def comp(fitted):
+            t, sp = vd.Trend(1), vd.Spline(damping=1e-3)
+            if fitted:
+                t.fit(c, d)
+                sp.fit(c, d)
+            return t, sp
+        composites = {}
+        for fitted in (False, True):
+            tag = "pre-fitted components" if fitted else "fresh components"
+            composites["Vector (%s)" % tag] = (lambda fitted=fitted: vd.Vector(list(comp(fitted))), True,
+                                               "vd.Vector([vd.Trend(1)%s, vd.Spline(damping=1e-3)%s])" % ((".fit(c, d)",) * 2 if fitted else ("", "")))
+            composites["Chain (%s)" % tag] = (lambda fitted=fitted: vd.Chain([("trend", comp(fitted)[0]), ("spline", comp(fitted)[1])]), False,
+                                              "vd.Chain([('trend', vd.Trend(1)%s), ('spline', vd.Spline(damping=1e-3)%s)])" % ((".fit(c, d)",) * 2 if fitted else ("", "")))
+        composites["SplineCV"] = (lambda: vd.SplineCV(dampings=(1e-4, 1e-2)), False, "vd.SplineCV(dampings=(1e-4, 1e-2))")
+        for cname, (mkc, vector, csrc) in composites.items():
+            for meth, call, msrc in (
+                    ("predict", lambda o: o.predict(probe), "o.predict((np.linspace(0, 9, 5), np.linspace(-4, 4, 5)))"),
+                    ("grid", lambda o: o.grid(region=region, shape=(3, 4)), "o.grid(region=(0, 10, -5, 5), shape=(3, 4))"),
+                    ("scatter", lambda o: o.scatter(region=region, size=5, random_state=0), "o.scatter(region=(0, 10, -5, 5), size=5)"),
+                    ("profile", lambda o: o.profile((1.0, -3.0), (8.0, 3.0), size=5), "o.profile((1, -3), (8, 3), size=5)"),
+                    ("score", lambda o: o.score(c, (d, 2.0 - d) if vector else d), "o.score(c, %s)" % ("(d, 2.0 - d)" if vector else "d"))):
+                obj = mkc()
+                try:
+                    call(obj)
+                    raised, exn = False, None
+                except Exception as exc:      # noqa
+                    raised, exn = True, type(exc).__name__
+                boolcase({"estimator": cname, "call_before_fit": meth, "component_data": {"easting": ds[0].tolist(), "northing": ds[1].tolist(), "data": ds[2].tolist()}},
+                         {"raised": raised, "exception": exn}, raised,
+                         "import warnings; warnings.simplefilter('ignore'); import numpy as np, verde as vd; c = (%s, %s); d = %s; o = %s; print(%s)  # must raise: o.fit was never called"
+                         % (lit(ds[0]), lit(ds[1]), lit(ds[2]), csrc, msrc), "unfitted-composite")
+    return cases
+
+
 def _calls(vd, rnd):
     """catalogue of public calls: name -> builder() -> (callable, args tuple, kwargs)  (fresh arguments each time)"""
     import xarray as xr
@@ -978,6 +1159,7 @@ def generate(tier, seed):
     cases += _malformed(vd, rnd, tier)
     cases += _history(vd, rnd, tier)
     cases += _history_same_bbox(vd, rnd, tier)
+    cases += _history_params(vd, rnd, tier)
     cases += _purity(vd, rnd, tier)
     return cases
 
@@ -990,6 +1172,7 @@ def search(disagreeing, tier, seed):
     for k in (1, 2):
         rnd = random.Random(seed + k)
         out += _history_same_bbox(vd, rnd, "thorough")
+        out += _history_params(vd, rnd, "thorough")
         out += _history(vd, rnd, "thorough")
         out += _purity(vd, rnd, "quick")
     return out
